@@ -404,11 +404,18 @@ func runC08(c *Ctx) {
 	}
 	// a stagnating population whose species hold members resembling another species (delta coding leaves the species
 	// below the top two in place with quota 0 while babies nearest to them arrive)
-	for _, cfg := range []int{3, 9, 0, 7} {
-		for _, fit := range []int{2, 5, 6} {
+	for _, cfg := range []int{3, 0} {
+		for _, fit := range []int{2, 5} {
 			for _, pol := range []string{"M", "A"} {
 				pl.scenarios = append(pl.scenarios, EpochScenario{Seed: "hbx", Cfg: cfg, Fit: fit, Policy: pol, Mode: "perspecies", Epochs: 3})
 			}
+		}
+	}
+	// the same population under a tight threshold (0.3) and answer policies that really move weights: the weight-mutated
+	// clones of a super champion (delta coding) lie beyond the threshold of their mother's species
+	for _, cfg := range []int{1, 8} {
+		for i, pol := range []string{"A", "R1", "R2", "H"} {
+			pl.scenarios = append(pl.scenarios, EpochScenario{Seed: "hbx", Cfg: cfg, Fit: []int{2, 5, 6, 2}[i], Policy: pol, Mode: []string{"perspecies", "whole"}[i%2], Epochs: 3})
 		}
 	}
 	runEpochPlan(c, pl)
